@@ -261,13 +261,15 @@ def c10(rep, env):
         # must stay where the block counter has not wrapped, else the position is misreported
         only(rep, lambda r: SM.check_ctr_remaining(r, fb), pre("pos.", "rem."))
         only(rep, lambda r: SM.check_ctr_core(r, fb), pre("pos.", "rem."))
-        only(rep, lambda r: SM.check_ctr_layout(r, fb), pre("ctr.layout", "ctr.next.advance", "ctr.next.nonce-kept"))
-        only(rep, lambda r: SM.check_ctr_backend(r, fb), pre("ctr.ks.advance", "par.closed-form.state"))
-        only(rep, lambda r: SM.check_belt(r, fb, parts=("pos", "def", "par", "rem")), pre("pos.", "rem.", "belt.ks.advance", "belt.ks.block", "par.closed-form.state"))
+        only(rep, lambda r: SM.check_ctr_layout(r, fb), pre("ctr.next.advance", "ctr.next.nonce-kept"))
+        # the bytes after seek(p) come partly from the one-block kernel (inside a block, tails) and
+        # partly from the parallel body: they are "bytes p.. of the keystream" only if the two agree
+        only(rep, lambda r: SM.check_ctr_backend(r, fb), pre("ctr.ks.advance", "ctr.ks.block", "par.closed-form"))
+        only(rep, lambda r: SM.check_belt(r, fb, parts=("pos", "def", "par", "rem")), pre("pos.", "rem.", "belt.ks.advance", "belt.ks.block", "par.closed-form"))
         # a clone must report (and seek relative to) the same position as the original
         IR.check_clone_bodies(rep, fb, crates={"ctr", "belt_ctr"})
         SM.check_ctr_aliases(rep, fb)
-        MI.check_cfg_coverage(rep, fb)
+        MI.check_overrides(rep, fb)
     per_config(rep, env, f)
 
 
@@ -286,7 +288,7 @@ def c11(rep, env):
         # a clone that forgets how many blocks were used would wrap silently
         IR.check_clone_bodies(rep, fb, crates={"ctr", "belt_ctr"})
         SM.check_ctr_aliases(rep, fb)
-        MI.check_cfg_coverage(rep, fb)
+        MI.check_overrides(rep, fb)
     per_config(rep, env, f)
 
 
